@@ -1,6 +1,7 @@
 package chainsim
 
 import (
+	"crypto/sha256"
 	"encoding/hex"
 	"fmt"
 	"math/big"
@@ -242,6 +243,19 @@ func BuildTx(kr *Keyring, s TxSpec, prior Prior) (f TxFacts) {
 		} else if len(tx.Signature.Signature) > 1 {
 			tx.Signature.Signature = tx.Signature.Signature[:len(tx.Signature.Signature)-1]
 		}
+		honest = false
+	case s.Mut == "onecosigner":
+		// one member of a multisignature account fills every slot with valid signatures of its own
+		if sg := signer.SignAllSlotsBy(signBytes); sg != nil {
+			tx.Signature.Signature = sg
+		} else if len(tx.Signature.Signature) > 1 {
+			tx.Signature.Signature = tx.Signature.Signature[:len(tx.Signature.Signature)-1]
+		}
+		honest = false
+	case s.Mut == "hashsig":
+		// the signer approved SHA-256(sign bytes), not the sign bytes
+		hsb := sha256.Sum256(signBytes)
+		tx.Signature.Signature = signer.Sign(hsb[:])
 		honest = false
 	case s.Mut == "nomsg":
 		// well-formed amino for a transaction without a message
